@@ -20,7 +20,7 @@ def gennameL (L : Limits) (env : PEnv) (md : Maildir) (flags : Option Bytes) : N
   | 0, _ => pure none
   | fuel + 1, count =>
     let count := count + 1
-    let name := decimalInt env.now ++ [46] ++ decimal env.pid ++ [95] ++ decimal count ++ [46] ++ env.host ++ flags.getD []
+    let name := decimalInt env.now ++ [46] ++ decimal env.pid ++ [95] ++ decimal (count % gennameWrap) ++ [46] ++ env.host ++ flags.getD []
     match gennameBufL L.nameMax1 name with
     | none => pure none
     | some name =>
@@ -34,7 +34,7 @@ def gennameL (L : Limits) (env : PEnv) (md : Maildir) (flags : Option Bytes) : N
         | _ => pure none
 
 def gennameStartL (L : Limits) (env : PEnv) (md : Maildir) (flags : Option Bytes) : Prog (Option (Handle × Bytes)) :=
-  gennameL L env md flags 4096 (env.random % Gen.gennameModulus)
+  gennameL L env md flags gennameAttempts (env.random % Gen.gennameModulus)
 
 /-- `maildir_open(path, 0, env)`: destination of a move / flag / flags action. -/
 def maildirOpenDstL (L : Limits) (path : Bytes) : Prog (Option Maildir) :=
